@@ -670,13 +670,147 @@ fn stalls(ctx: &Ctx) {
     });
 }
 
+/// Concurrent requests through one proxy route (`proxy_handler` with a shared load balancer) whose targets are a healthy
+/// upstream and one that accepts and stays silent: every request must be answered within proxy_handler's timeout plus
+/// slack, the ones routed to the healthy target promptly with its response, the others with 502. A request must not
+/// wait for another request's upstream.
+pub fn concurrent_route(n_requests: usize, ip: &str) -> Vec<Fail> {
+    use humphrey_server::config::LoadBalancerMode;
+    use humphrey_server::proxy::{proxy_handler, EqMutex, LoadBalancer};
+    use std::io::{Read, Write};
+    let healthy = match std::net::TcpListener::bind((ip, 0)) {
+        Ok(l) => l,
+        Err(e) => return vec![Fail::new("harness-bind", e.to_string())],
+    };
+    let silent = match std::net::TcpListener::bind((ip, 0)) {
+        Ok(l) => l,
+        Err(e) => return vec![Fail::new("harness-bind", e.to_string())],
+    };
+    let (ha, sa) = (healthy.local_addr().unwrap(), silent.local_addr().unwrap());
+    let stop = Arc::new(std::sync::atomic::AtomicBool::new(false));
+    let _ = healthy.set_nonblocking(true);
+    let _ = silent.set_nonblocking(true);
+    let st1 = stop.clone();
+    let h1 = std::thread::spawn(move || {
+        while !st1.load(Ordering::SeqCst) {
+            match healthy.accept() {
+                Ok((mut s, _)) => {
+                    std::thread::spawn(move || {
+                        let _ = s.set_nonblocking(false);
+                        let _ = s.set_read_timeout(Some(Duration::from_secs(5)));
+                        let mut buf = Vec::new();
+                        let mut tmp = [0u8; 2048];
+                        while !buf.windows(4).any(|w| w == b"\r\n\r\n") {
+                            match s.read(&mut tmp) {
+                                Ok(0) | Err(_) => break,
+                                Ok(n) => buf.extend_from_slice(&tmp[..n]),
+                            }
+                        }
+                        let _ = s.write_all(b"HTTP/1.1 200 OK\r\nContent-Length: 7\r\n\r\nhealthy");
+                    });
+                }
+                Err(_) => std::thread::sleep(Duration::from_millis(2)),
+            }
+        }
+    });
+    let st2 = stop.clone();
+    let h2 = std::thread::spawn(move || {
+        let mut held = Vec::new();
+        while !st2.load(Ordering::SeqCst) {
+            match silent.accept() {
+                Ok((s, _)) => held.push(s),
+                Err(_) => std::thread::sleep(Duration::from_millis(2)),
+            }
+        }
+    });
+    let lb = Arc::new(EqMutex::new(LoadBalancer { targets: vec![sa.to_string(), ha.to_string()], mode: LoadBalancerMode::RoundRobin, index: 0, lcg: humphrey_server::rand::Lcg::new() }));
+    let state = Arc::new(humphrey_server::server::server::AppState::from(crate::props::c16::quiet_config(0, 0)));
+    let (tx, rx) = std::sync::mpsc::channel();
+    let t0 = Instant::now();
+    for k in 0..n_requests {
+        let (lb, state, tx) = (lb.clone(), state.clone(), tx.clone());
+        std::thread::spawn(move || {
+            // stagger the starts a little so that the rotation is well defined: request k takes target k % 2
+            std::thread::sleep(Duration::from_millis(30 * k as u64));
+            let req = crate::props::c16::make_request(&format!("/p/r{}", k));
+            let started = Instant::now();
+            let r = catch(|| proxy_handler(req, state, &lb, "/p/*"));
+            let _ = tx.send((k, started.elapsed(), r.map(|r| (u16::from(r.status_code), r.body))));
+        });
+    }
+    drop(tx);
+    let mut fails = Vec::new();
+    let mut seen = 0;
+    // proxy_handler's timeout is 5 s (hard-coded)
+    let limit = Duration::from_secs(5) + Duration::from_secs(2);
+    while seen < n_requests {
+        match rx.recv_timeout((limit + Duration::from_millis(30 * n_requests as u64)).saturating_sub(t0.elapsed())) {
+            Ok((k, took, r)) => {
+                seen += 1;
+                match r {
+                    Err(p) => fails.push(fail!("panic", "proxy_handler panicked under concurrent requests: {}", p)),
+                    Ok((status, body)) => {
+                        if status == 200 && body == b"healthy" && took > Duration::from_secs(2) {
+                            fails.push(fail!("concurrent-request-waits-for-another-upstream", "request {} of {} concurrent ones on one proxy route was answered by the healthy upstream only after {:?}: it waited for another request's stalled upstream", k, n_requests, took));
+                        } else if took > limit {
+                            fails.push(fail!("concurrent-deadline", "request {} of {} concurrent ones took {:?} (status {}), more than the 5 s timeout + 2 s", k, n_requests, took, status));
+                        } else if !(status == 502 || (status == 200 && body == b"healthy")) {
+                            fails.push(fail!("concurrent-wrong-response", "request {} answered {} {:?}", k, status, show(&body[..body.len().min(40)])));
+                        }
+                    }
+                }
+            }
+            Err(_) => {
+                fails.push(fail!("concurrent-deadline", "{} of {} concurrent requests on one proxy route (targets: one silent, one healthy) were not answered within 5 s + 2 s", n_requests - seen, n_requests));
+                break;
+            }
+        }
+    }
+    stop.store(true, Ordering::SeqCst);
+    let _ = h1.join();
+    let _ = h2.join();
+    fails.truncate(1);
+    fails
+}
+
+fn concurrent(ctx: &Ctx) {
+    let runs = ctx.tier.pick(2usize, 12usize);
+    let next = std::sync::atomic::AtomicUsize::new(0);
+    let found: std::sync::Mutex<Vec<(Fail, J)>> = std::sync::Mutex::new(Vec::new());
+    crate::engine::shards(runs.min(12), |sh| loop {
+        let k = next.fetch_add(1, Ordering::SeqCst);
+        if k >= runs {
+            break;
+        }
+        let n = 4 + k % 5;
+        ctx.case(hash_of(&("concurrent-route", n, k)), true, &["concurrent-requests-on-one-route"]);
+        for f in concurrent_route(n, &format!("127.0.9.{}", 60 + sh)) {
+            if f.sig.starts_with("harness-") {
+                ctx.inconclusive(&f.detail);
+            } else {
+                found.lock().unwrap().push((f, json!({"requests": n})));
+            }
+        }
+    });
+    ctx.sample("concurrent-requests-on-one-route", || json!({"scenario": "4..8 concurrent requests through proxy_handler on one route whose two targets are a silent and a healthy upstream (round robin)"}));
+    for (f, c) in found.into_inner().unwrap() {
+        if !ctx.tolerate(&f) {
+            ctx.violation(f, "concurrent", c);
+        }
+    }
+}
+
 pub fn run(ctx: &Ctx) {
-    ctx.rule("client requests from the HTTP grammar x upstream behaviours: generated valid responses (modelled status codes; Content-Length, chunked, close-delimited) delivered whole or in segments, each valid response cut at every byte offset then closed (fault enumeration), garbage / header-malformed / bare-LF / unmodelled-status responses, connection refused, accept-then-close, accept-then-silence, stall mid-response, one byte per 50 ms; through proxy_request and through the server's proxy_handler (prefix stripping); oracle = reference response parser applied to the bytes the upstream actually sent (complete valid => identical status/headers/body, otherwise 502), a deadline of timeout + active sending time + 2 s, and the reference request parser on what the upstream received (same request, stripped prefix, one added X-Forwarded-For = origin address). Load balancer: strict rotation / exact fairness under 1..8 threads, random within the set. Non-trivial = any fault case or chunked / close-delimited framing; distinct by case");
+    ctx.rule("client requests from the HTTP grammar x upstream behaviours: generated valid responses (modelled status codes; Content-Length, chunked, close-delimited) delivered whole or in segments, each valid response cut at every byte offset then closed (fault enumeration), garbage / header-malformed / bare-LF / unmodelled-status responses, connection refused, accept-then-close, accept-then-silence, stall mid-response, one byte per 50 ms; through proxy_request and through the server's proxy_handler (prefix stripping); oracle = reference response parser applied to the bytes the upstream actually sent (complete valid => identical status/headers/body, otherwise 502), a deadline of timeout + active sending time + 2 s, and the reference request parser on what the upstream received (same request, stripped prefix, one added X-Forwarded-For = origin address). Load balancer: strict rotation / exact fairness under 1..8 threads, random within the set. Concurrent requests on one proxy route with a silent and a healthy target: each answered within the handler's timeout + slack, the healthy ones promptly. Non-trivial = any fault case or chunked / close-delimited framing; distinct by case");
     ctx.assume("scripted loopback upstream; close-delimited bodies cut anywhere and a chunked body cut after its terminal `0\\r\\n` are ambiguous and either reading is accepted; status codes outside Humphrey's StatusCode table only require `502 or faithful, never panic/hang`; proxy_handler's 5 s timeout is hard-coded");
     load_balancer(ctx);
     enumerate_cuts(ctx);
     faults_and_random(ctx);
-    stalls(ctx);
+    // both wait for timeouts most of the time: run them side by side
+    std::thread::scope(|sc| {
+        sc.spawn(|| stalls(ctx));
+        sc.spawn(|| concurrent(ctx));
+    });
 }
 
 pub fn replay(_ctx: &Ctx, kind: &str, case: &J) -> Vec<Fail> {
@@ -685,6 +819,7 @@ pub fn replay(_ctx: &Ctx, kind: &str, case: &J) -> Vec<Fail> {
             Ok(c) => run_case(&c, "127.0.9.99").fails,
             Err(e) => vec![Fail::new("harness", format!("bad replay case: {}", e))],
         },
+        "concurrent" => concurrent_route(case["requests"].as_u64().unwrap_or(4) as usize, "127.0.9.99"),
         _ => vec![],
     }
 }
